@@ -3,3 +3,4 @@ From Irismod Require Export Queues.Common.
 From Irismod Require Queues.CheckHtlc.
 From Irismod Require Queues.CheckRandom.
 From Irismod Require Queues.CheckFarm.
+From Irismod Require Queues.CheckService.
